@@ -93,7 +93,7 @@ def race_reports(prop, stderr):
                 if path.startswith("/opt/veriftools/go") or "/src/runtime/" in path or "/src/sync/" in path:
                     continue  # runtime / sync internals performing the access on behalf of the caller
                 # the first frame outside the Go runtime is the code that performs the access
-                if path.startswith("/repo/") and "zz_verif" not in path and "/verifsim/" not in path:
+                if path.startswith(os.environ.get("VERIF_REPO", "/repo").rstrip("/") + "/") and "zz_verif" not in path and "/verifsim/" not in path:
                     fn = name.split("/")[-1]
                 break
             funcs.append(fn)
